@@ -212,6 +212,8 @@ class C06(Monitor):
                 out.append((_sig(cfg, 'C06', 'hit-removes'), 'a hit removed %r' % (sorted(map(repr, removed)),)))
             self._use(k)
             return out
+        if cfg.get('hits_only'):
+            return out          # (only the hit rules are judged in these configurations)
         overflow = m is not None and len(prek) + 1 > m
         purge = eff_purge(cfg) and tr.pre.archived
         if not overflow:
